@@ -46,6 +46,9 @@ def gen(seed, tier):
             pl["level_stack"] = pl["level_stack"][:2]
             if pl["sprout"].get("generator", {}).get("kind") == "nbc_local":
                 pl["sprout"]["generator"]["kind"] = "nbc"
+    if "levels" in pl and seed % 5 == 3:
+        for st in pl["stacks"]:
+            st["use_cache"] = True  # FunctionProblem(use_cache=True)
     if "levels" in pl and seed % 7 == 0:
         P.nan_stratum(pl, seed)  # comparisons of NaN fitness values must not make a seeded run irreproducible
     return pl
@@ -55,6 +58,7 @@ def variants(plan):
     a = copy.deepcopy(plan)
     a["prior_seed"] = (plan["prior_seed"] * 7 + 13) % (2 ** 31)
     a["prior_junk"] = plan.get("prior_junk", 0) + 97
+    a["np_printoptions"] = {"precision": 2, "suppress": True}  # e.g. set at the top of the user's notebook
     b = copy.deepcopy(plan)
     b["clock"] = {"start": plan["clock"]["start"] + 123456.789, "cost": plan["clock"]["cost"] * 3.0 + 1e-9,
                   "jumps": {"3": 86400.0, "40": 0.0, "41": 0.0, "200": 3.2e7}}
